@@ -571,3 +571,39 @@ Proof.
   - exists []. reflexivity.
   - destruct (IH (resolve_over l m) a b) as [pre Hp]. rewrite Hp. eexists ((x, resolve_over l m) :: pre). reflexivity.
 Qed.
+
+(* ---- the context rule of do / be ---- *)
+Lemma verb_ctx_rule : forall explicit at_ctx,
+  verb_ctx explicit at_ctx =
+    match explicit with
+    | Some e => if Nat.eqb e NATIVE then ENDO else e          (* explicit nabe= wins *)
+    | None => if Nat.eqb at_ctx NATIVE then ENDO else at_ctx  (* else the at() context, native = endo *)
+    end.
+Proof. intros [e|] a; reflexivity. Qed.
+
+(* a statement files its act under the act's own context [S k] when nabe= says so, or when it is left out and the
+   current at() context is that context (or native, for an entry act) *)
+Definition well_declared (at_ctx : nat) (s : stmt) : Prop :=
+  match s with
+  | SAt _ => True
+  | SAct (Some e) k _ => e = S k
+  | SAct None k _ => at_ctx = S k \/ (at_ctx = NATIVE /\ S k = ENDO)
+  end.
+
+Fixpoint all_well_declared (at_ctx : nat) (ss : list stmt) : Prop :=
+  match ss with
+  | [] => True
+  | SAt c :: ss' => all_well_declared c ss'
+  | SAct e k j :: ss' => well_declared at_ctx (SAct e k j) /\ all_well_declared at_ctx ss'
+  end.
+
+Theorem filed_as_declared : forall ss at_ctx,
+  all_well_declared at_ctx ss ->
+  Forall (fun f => fst f = S (fst (snd f))) (file_from at_ctx ss).
+Proof.
+  induction ss as [|[c|e k j] ss IH]; intros a H; simpl in *; auto.
+  destruct H as [Hw H]. constructor; auto. simpl.
+  destruct e as [e|]; simpl in Hw.
+  - subst e. reflexivity.
+  - destruct Hw as [->|[-> Hk]]; [reflexivity|]. unfold verb_ctx. simpl. now rewrite Hk.
+Qed.
